@@ -44,7 +44,7 @@ def run(ctx):
         sim = F.simulate(ctx, F.base("c11-ring5", ["a", "b", "c", "d", "e"], ring5, initups=[ring5[:5], ring5[:4]], exits=[["a"]],
                                      announcers=["a", "c"], maxann=2, conn=2, disc=1, exp=3, dup=3, age=1), num=3000, depth=80)
     rep = F.replay(ctx, runs)
-    ntr, nops = (25, 50) if ctx.quick() else (400, 90)
+    ntr, nops = (25, 50) if ctx.quick() else (1200, 100)
     tr = F.traces(ctx, "TestZZVFloodTrace", {"ZZV_TRACES": ntr, "ZZV_OPS": nops}, "c11trace")
     F.report(ctx, "C11", rep, [tr])
     st, trn = F.coverage(runs)
